@@ -65,12 +65,16 @@ impl ToTokens for Project {
         let variables: Vec<&Ident> = self.variables.iter().collect();
         let body: Vec<&Clause> = self.body.iter().collect();
         let output = quote! {{
-            #( let #variables = ::proto_vulcan::lterm::LTerm::projection(::std::clone::Clone::clone(&#variables)); )*
             ::proto_vulcan::operator::project::Project::new(
                 vec![ #( ::std::clone::Clone::clone(&#variables) ),* ],
-                ::proto_vulcan::GoalCast::cast_into(
-                    ::proto_vulcan::operator::conj::InferredConj::from_conjunctions(&[ #( &[ ::proto_vulcan::GoalCast::cast_into( #body ) ] ),* ])
-                )
+                Box::new(move |__projected__: Vec<::proto_vulcan::lterm::LTerm<_, _>>| {
+                    // The body is built for the projected values of this particular state
+                    let mut __projected__ = __projected__.into_iter();
+                    #( let #variables = __projected__.next().unwrap(); )*
+                    ::proto_vulcan::GoalCast::cast_into(
+                        ::proto_vulcan::operator::conj::InferredConj::from_conjunctions(&[ #( &[ ::proto_vulcan::GoalCast::cast_into( #body ) ] ),* ])
+                    )
+                })
             )
         }};
         output.to_tokens(tokens);
